@@ -6085,8 +6085,9 @@ static size_t ZSTD_compressStream_generic(ZSTD_CStream* zcs,
                 || zcs->appliedParams.outBufferMode == ZSTD_bm_stable)  /* OR we are allowed to return dstSizeTooSmall */
               && (zcs->inBuffPos == 0) ) {
                 /* shortcut to compression pass directly into output buffer */
-                size_t const cSize = (ZSTD_VERIF_PROBE(ZSTD_VP_cstream_endShortcut), ZSTD_compressEnd_public(zcs,
-                                                op, oend-op, ip, iend-ip));
+                size_t const cSize = ZSTD_compressEnd_public(zcs,
+                                                op, oend-op, ip, iend-ip);
+                ZSTD_VERIF_PROBE(ZSTD_VP_cstream_endShortcut);
                 DEBUGLOG(4, "ZSTD_compressEnd : cSize=%u", (unsigned)cSize);
                 FORWARD_IF_ERROR(cSize, "ZSTD_compressEnd failed");
                 ip = iend;
